@@ -78,6 +78,10 @@ func (l RangeLoop) ElemOf(v ssa.Value) bool {
 			return ia.Index == l.Idx && (ia.X == l.Slice || Same(ia.X, l.Slice))
 		}
 	}
+	// the address of the element itself: &S[idx] (pointer-receiver call on S[idx])
+	if ia, ok := v.(*ssa.IndexAddr); ok {
+		return ia.Index == l.Idx && (ia.X == l.Slice || Same(ia.X, l.Slice))
+	}
 	// pointer to a per-iteration copy: new T; *t = S[idx]
 	if al, ok := v.(*ssa.Alloc); ok {
 		sts := CellStores(al)
